@@ -106,6 +106,38 @@ def _declare_root_level_config() -> None:
     _ROOT_LEVEL_CFG.append(C18RootLevelConfig)
 
 
+def _selftest_inherit_sources() -> dict[str, Any]:
+    """binding self-test of the declaration reader: which sources a REdeclared option keeps must not depend on the
+    field metadata of the tree under test (hand-made declarations, expected keys fixed here)"""
+    D = L.Decl
+    base = D(name="opt", owner="m.Base", gallia_field=True, arg_field=True, section="a.b", section_explicit=True)
+    plain = D(name="opt", owner="m.Base")
+    cases = {
+        "new default via Field(), no section written": (base, D("opt", "m.Sub", gallia_field=True, arg_field=True), "a.b.opt", True),
+        "section written out in the redeclaration": (base, D("opt", "m.Sub", gallia_field=True, arg_field=True, section="c",
+                                                         section_explicit=True), "c.opt", True),
+        "config_section=None written out": (base, D("opt", "m.Sub", gallia_field=True, arg_field=True,
+                                                    section_explicit=True), None, True),
+        "hidden=True": (base, D("opt", "m.Sub", gallia_field=True, arg_field=True, hidden=True), None, True),
+        "bare `opt: T = v`": (base, D("opt", "m.Sub", bare=True), "a.b.opt", True),
+        "another Field function": (base, D("opt", "m.Sub", arg_field=True), None, False),
+        "parent without a section": (plain, D("opt", "m.Sub", gallia_field=True, arg_field=True), None, True),
+        "no parent": (None, D("opt", "m.Sub", gallia_field=True, arg_field=True), None, True),
+        "twice": (L.inherit_sources(base, D("opt", "m.Mid", gallia_field=True, arg_field=True)),
+                  D("opt", "m.Sub", gallia_field=True, arg_field=True), "a.b.opt", True),
+    }
+    got = {}
+    for what, (prev, new, key, env) in cases.items():
+        d = L.inherit_sources(prev, new)
+        got[what] = d.key
+        if d.key != key or d.gallia_field != env or d.owner != new.owner:
+            raise Machinery(f"binding self-test: declaration reader, case {what!r}: key {d.key!r} env {d.gallia_field} "
+                            f"(expected {key!r} {env})")
+    if L.inherit_sources(*cases["twice"][:2]).sources_from != "m.Base":
+        raise Machinery("binding self-test: declaration reader loses the introducing class over two redeclarations")
+    return got
+
+
 def template_records() -> list[dict[str, Any]]:
     from gallia.cli import gallia as gcli
     from gallia.config import Config
@@ -248,7 +280,11 @@ def run(tier: str, seed: int) -> Report:
         "(CONFIG_TYPE(**{option: raw})): C18 is about WHICH source wins and how a rejection is attributed, not "
         "about the grammar of AutoInt / ranges / URIs (C20)",
         "which options are env/file-configurable, positional, const, hidden and under which section is read from "
-        "the class SOURCES (ast), independently of what the installed pydantic made of the declarations",
+        "the class SOURCES (ast), independently of what the installed pydantic made of the declarations; the section "
+        "(and, for a redeclaration without a Field() call, the environment binding) of an option is the one of the "
+        "class that introduces it: a subclass redeclaring the option keeps `S.<name>` -- the key --template prints "
+        "and every sibling command reads -- unless the redeclaration itself writes config_section= (Field or class "
+        "statement) or hidden=True (c18_lib.inherit_sources); never taken from the ConfigArgFieldInfo under test",
         "an error text 'names' a source if it mentions the option's command-line name / GALLIA_<NAME> or "
         "'environment' / 'config' or the key (liberal projection: can only miss, never alarm)",
         "positional arguments without a command-line value: the statement is silent (usage error accepted); "
@@ -420,7 +456,11 @@ def run(tier: str, seed: int) -> Report:
     mv = _validate(muts, None, "selftest")
     if any(mv[i].startswith("ok") for i in range(len(muts))):
         raise Machinery(f"binding self-test: corrupted records accepted: {mv}")
-    rep.extra["binding_selftest"] = {"corrupted_rejected": [mv[i] for i in range(len(muts))]}
+    rep.extra["binding_selftest"] = {"corrupted_rejected": [mv[i] for i in range(len(muts))],
+                                     "redeclared_option_keys": _selftest_inherit_sources()}
+    kept = sorted({(m["detail"]["declared_by"], m["detail"]["option"], m["detail"]["file_key"]) for m in meta
+                   if m["detail"].get("sources_kept_from")})
+    rep.extra["redeclarations_keeping_inherited_sources"] = [list(x) for x in kept][:20]
     return rep
 
 
